@@ -306,7 +306,10 @@ class World(BaseWorld):
                                'i': rng.randrange(1000), 'j': rng.randrange(1000)}
                               for _ in range(rng.choice([1, 1, 2, 3]))],
                     'graph_first': rng.random() < 0.85}
-        return {'op': kind, 'model_fmt': rng.choice(['json', 'yml', 'shuf'])}
+        op = {'op': kind, 'model_fmt': rng.choice(['json', 'yml', 'shuf'])}
+        if kind == 'inputs' and rng.random() < 0.25:
+            op['same_name'] = [rng.randrange(100), rng.randrange(100)]
+        return op
 
     def apply(self, op):
         kind = op['op']
@@ -427,6 +430,22 @@ class World(BaseWorld):
 
     def do_inputs(self, op):
         lg, fac, model, spec_obj = self._fresh_inputs(op['model_fmt'])
+        if op.get('same_name') and len(model.assets) >= 2:
+            # somebody renamed an asset after it was added: two assets now carry one name.
+            # Not a model the generator has to make sense of - but it must leave it alone.
+            i, j = (x % len(model.assets) for x in op['same_name'])
+            if i != j:
+                model.assets[j].name = str(model.assets[i].name)
+                before = canon(model._to_dict())
+                call(self._pipeline, lg, model)
+                self.count('oracle:C16.inputs')
+                self.count('probe:generated_from_a_model_with_one_name_twice')
+                after = canon(model._to_dict())
+                if after != before:
+                    raise Violation('C16.inputs', 'Model._to_dict() differs after generation from a model '
+                                                  'in which two assets carry one name\n'
+                                    + world_m._obs_diff(json.loads(before), json.loads(after)))
+                return 'ok'
         before = canon(model._to_dict())
         o = call(self._pipeline, lg, model)
         if o.raised:
@@ -501,6 +520,16 @@ class World(BaseWorld):
         return 'ok'
 
     def _lang_file(self, via):
+        # the name of a language file is the caller's business: the wrapper looks at the
+        # content (zip archive or not), so upper-case or doubled extensions must do
+        self._lang_n = getattr(self, '_lang_n', 0) + 1
+        if via == 'wrapper_mar' and self._lang_n % 3 == 0:
+            alt = self.path(['Lang Copy.MAR', 'lang.mar.orig', 'language'][(self._lang_n // 3) % 3])
+            if not os.path.exists(alt):
+                import shutil
+                shutil.copy(self.mar, alt)
+            self.count('probe:language_file_with_unusual_name')
+            return alt
         if via == 'wrapper_mal':
             # every other time the path that held another language earlier in this process
             self._mal_toggle = not getattr(self, '_mal_toggle', False)
